@@ -55,3 +55,20 @@ Example C01_nonvacuous_ex :
              h_too_big := false; h_old := Some {| o_room := Some 1%N; o_author := 5%N |}; h_edge_dels := [] |} []] = VRejected.
 Proof. exact C01_nonvacuous. Qed.
 Print Assumptions C01_nonvacuous_ex.
+
+(* ================= system level (definitions: model/System.v; proofs: proofs/SystemP.v) =================
+   Whatever sequence, of any length, of validated local writes (SysWrite) and local deletions
+   (SysDelete) the local user submits — refused ones included, they change nothing — every stored
+   row stays ENTITLED: private, or its author granted the own-rows right for the row's entity by the
+   room's accepted history at the row's modification date.  The room definitions `defs` are fixed
+   along the history (their changes: (1) above, C07, C10).  No exclusion.  This is the local special
+   case of C02_rows_invariant_holds (props/C02.v), which holds for histories interleaved with remote
+   ingestion as well; for references see C02_store_invariant_outside_known. *)
+From DV Require Import System SystemP.
+
+Theorem C01_store_invariant_holds : forall defs dm hist st,
+  forallb is_local hist = true ->
+  nodes_entitled defs st = true ->
+  nodes_entitled defs (sys_final (build_rooms defs) dm st hist) = true.
+Proof. exact local_rows_invariant. Qed.
+Print Assumptions C01_store_invariant_holds.
